@@ -28,6 +28,7 @@ type adversary struct {
 	touts  []hotstuff.TimeoutMsg
 	blocks []*hotstuff.Block // blocks crafted by the adversary
 	lies   map[hotstuff.Hash]*hotstuff.Block
+	crafted map[hotstuff.Hash]*hotstuff.Block // made-up blocks by hash: their makers serve them (knob nobatch)
 	fz     *fuzzer
 	seen   map[hotstuff.View]*hotstuff.Block // proposals of honest leaders seen by a Byzantine replica, by view
 	ll     *lockless
@@ -654,10 +655,30 @@ func (a *adversary) craftBlock(nd *Node, view hotstuff.View) *hotstuff.Block {
 	w := a.w
 	parent := w.reg.order[len(w.reg.order)-1-a.intn(min(len(w.reg.order), 5))].b
 	batch := &clientpb.Batch{Commands: []*clientpb.Command{{ClientID: 7000 + uint32(nd.id), SequenceNumber: a.ctr, Data: []byte(fmt.Sprintf("adv%d", a.ctr))}}}
+	if a.noBatch() {
+		batch = nil
+	}
 	b := hotstuff.NewBlock(parent.Hash(), parent.QuorumCert(), batch, view, nd.id)
 	w.reg.add(b, nd)
 	a.blocks = append(a.blocks, b)
+	if a.crafted == nil {
+		a.crafted = map[hotstuff.Hash]*hotstuff.Block{}
+	}
+	a.crafted[b.Hash()] = b
 	return b
+}
+
+// noBatch decides, without consuming a draw, that the block being crafted carries no command batch at all: on
+// the wire the Commands field is absent, and the receiver decodes a block whose batch is nil.
+func (a *adversary) noBatch() bool {
+	if a.w.plan.knob("nobatch", 0) != 1 {
+		return false
+	}
+	hit := mix(a.w.plan.Inner, 0x6e6f6261, a.ctr)%3 == 0
+	if hit {
+		a.fired("block-without-batch")
+	}
+	return hit
 }
 
 // forgeTC returns a timeout certificate that no quorum of timeouts backs.
@@ -844,6 +865,9 @@ func (a *adversary) onPropose(nd *Node, p *hotstuff.ProposeMsg) bool {
 	case has(acts, "equivocate") && a.chance(0.6):
 		// two blocks for one view, each to a part of the cluster
 		batch := &clientpb.Batch{Commands: []*clientpb.Command{{ClientID: 7000 + uint32(nd.id), SequenceNumber: a.ctr, Data: []byte("eq")}}}
+		if a.noBatch() {
+			batch = nil
+		}
 		b2 := hotstuff.NewBlock(b.Parent(), b.QuorumCert(), batch, b.View(), nd.id)
 		if len(a.qcs) > 1 && a.chance(0.5) {
 			// the second block forks off further back: it extends an older certified block
@@ -1332,6 +1356,9 @@ func (a *adversary) onVote(nd *Node, to hotstuff.ID, c *hotstuff.PartialCert) bo
 	if len(a.votes) < 4096 {
 		a.votes = append(a.votes, *c)
 	}
+	if has(acts, "stalechain") && a.chance(0.35) {
+		a.staleChain(nd)
+	}
 	switch {
 	case has(acts, "dupvote") && a.chance(0.5):
 		for i := 0; i < 2+a.intn(3); i++ {
@@ -1410,6 +1437,75 @@ func (a *adversary) onVote(nd *Node, to hotstuff.ID, c *hotstuff.PartialCert) bo
 		return true
 	}
 	return false
+}
+
+// staleChain: proposals for views the victim has left behind. The Byzantine replica makes up a chain Y1 <- Y2 <- Y3
+// on top of an honest replica's committed block, in the views right above it, "certified" by nobody but itself, and a
+// fourth block on top of Y3; it sends them as proposals to that replica, which has voted or timed out in all these
+// views. Nothing in them may be acted upon: if the replica applied its commit rule to them, Y1 would be committed.
+func (a *adversary) staleChain(nd *Node) {
+	w := a.w
+	var honest []*Node
+	for _, x := range w.nodes {
+		if x.honest && !x.crashed {
+			honest = append(honest, x)
+		}
+	}
+	if len(honest) == 0 {
+		return
+	}
+	v := honest[a.intn(len(honest))]
+	base := v.states.CommittedBlock()
+	cur := v.states.View()
+	if base == nil || cur < base.View()+4 {
+		a.fired("stalechain-no-room")
+		return
+	}
+	fake := func(b *hotstuff.Block) (hotstuff.QuorumCert, bool) {
+		own := a.ownSig(nd, b.ToBytes())
+		if own == nil {
+			return hotstuff.QuorumCert{}, false
+		}
+		if rs := repeatSig(own, w.orc.q); rs != nil && a.chance(0.5) {
+			own = rs
+		}
+		return hotstuff.NewQuorumCert(own, b.View(), b.Hash()), true
+	}
+	// the first block carries the genuine certificate of the committed block if the adversary has seen it
+	qc, ok := fake(base)
+	for _, x := range a.qcs {
+		if x.BlockHash() == base.Hash() {
+			qc = x
+		}
+	}
+	if !ok {
+		return
+	}
+	parent := base
+	var chain []*hotstuff.Block
+	for i := 1; i <= 4; i++ {
+		view := base.View() + hotstuff.View(i)
+		if i == 4 {
+			view = cur - 1 // the newest view the victim can no longer vote in (at least base+3)
+		}
+		batch := &clientpb.Batch{Commands: []*clientpb.Command{{ClientID: 7000 + uint32(nd.id), SequenceNumber: a.ctr, Data: []byte(fmt.Sprintf("stale%d", i))}}}
+		b := hotstuff.NewBlock(parent.Hash(), qc, batch, view, nd.id)
+		w.reg.add(b, nd)
+		chain = append(chain, b)
+		if qc, ok = fake(b); !ok {
+			return
+		}
+		parent = b
+	}
+	for rep := 0; rep < 2; rep++ {
+		for i, b := range chain {
+			if rep == 1 && i < 3 {
+				continue
+			}
+			a.sendTo(nd, v.id, "propose", hotstuff.ProposeMsg{ID: nd.id, Block: b})
+		}
+	}
+	a.fired("stalechain")
 }
 
 func (a *adversary) onNewView(nd *Node, to hotstuff.ID, si *hotstuff.SyncInfo) bool {
